@@ -255,6 +255,9 @@ def run(ck):
             "aux trace root is absorbed between aux randomness and composition coefficients")
     between(ck, vsg, vtags, "verifier", ["AIR_GKR"], ["R:trace_aux"], ["AIR_COEFFS"], "E1.aux",
             "aux trace root is absorbed between the GKR verifier's draws and composition coefficients")
+    between(ck, vsg, vtags, "verifier", ["AIR_AUX"], ["R:trace_aux"], ["AIR_GKR"], "E1.aux",
+            "the GKR verifier uses the coin BEFORE the auxiliary random elements are drawn (the prover generates the GKR proof first): "
+            "no GKR event follows an aux draw without the aux root absorbed in between")
     verifier_origin_rules(ck, prog, vsg, vtags)
 
     # ---------------------------------------------------------------- prover
@@ -294,6 +297,9 @@ def run(ck):
             "auxiliary randomness is drawn after the main trace root was absorbed")
     between(ck, psg, ptags, "prover", ["AIR_AUX"], ["R:trace"], ["AIR_COEFFS"], "E1.aux",
             "aux trace root is absorbed between aux randomness and composition coefficients")
+    between(ck, psg, ptags, "prover", ["AIR_AUX"], ["R:trace"], ["AIR_GKR"], "E1.aux",
+            "the GKR proof is generated (coin handed to the user's hook) BEFORE the auxiliary random elements are drawn: no GKR event "
+            "follows an aux draw without a trace root absorbed in between")
     prover_origin_rules(ck, prog, psg, ptags)
     seed_field_coverage(ck, prog)
     digest_coverage(ck, prog)
@@ -656,6 +662,17 @@ def seed_field_coverage(ck, prog):
                             if c.get("impl_self_adt") == adt and c.get("impl_trait") is None:
                                 collect(c, depth + 1)
         collect(f)
+        # ... and encodes ALL of it: no iterator over a field's bytes/elements is cut short (take, skip, step_by, ...)
+        from ..flow import partial_iteration
+        names = {callee_name(t) or "" for b, t in f.calls()}
+        for b, t in f.calls():
+            for cid in f.closure_args(t):
+                if cid in prog.fns:
+                    names |= {callee_name(tt) or "" for _, tt in prog.fns[cid].calls()}
+        cut = partial_iteration(names)
+        ck.ob("E3.seed", f"seed-whole:{adt.split('::')[-1]}", not cut,
+              f"{adt.split('::')[-1]}::to_elements iterates over the whole of every field it encodes (a truncated iteration leaves the tail "
+              "of a field out of the coin seed)", loc=f.loc(), detail=None if not cut else {"adaptors": cut})
         for fld in fields:
             ck.ob("E3.seed", f"seed-field:{adt.split('::')[-1]}.{fld}", fld in read,
                   f"{adt.split('::')[-1]}::to_elements encodes field `{fld}` into the coin seed "
